@@ -132,8 +132,15 @@ def run(ctx: Ctx, tier: str) -> Result:
             if not any(e.startswith("logging.") for e in t.resolve_call(c_, g_).ext) and not (isinstance(c_.func, ast.Attribute) and c_.func.attr in (
                     "info", "debug", "warning", "error", "log", "critical")):
                 continue
-            fmt_has_msg = bool(c_.args) and any(isinstance(n, ast.Name) and n.id == ip[0] for n in ast.walk(c_.args[0]))
-            extra = c_.args[1:] if not (isinstance(c_.func, ast.Attribute) and c_.func.attr == "log") else c_.args[2:]
+            fi_ = 1 if (isinstance(c_.func, ast.Attribute) and c_.func.attr == "log") else 0
+            # a repository forwarder says itself where the format goes (the parameter named msg / message / fmt)
+            for cal_ in t.resolve_call(c_, g_).repo:
+                off_ = 1 if cal_.cls is not None and not cal_.is_static else 0
+                for i_, pn_ in enumerate(cal_.params[off_:]):
+                    if pn_ in ("msg", "message", "fmt", "format"):
+                        fi_ = i_
+            fmt_has_msg = len(c_.args) > fi_ and any(isinstance(n, ast.Name) and n.id == ip[0] for n in ast.walk(c_.args[fi_]))
+            extra = c_.args[fi_ + 1:]
             if fmt_has_msg and extra:
                 res.fail(Finding("C16.ROLE", g_.qname, c_, g_.loc(c_), "the message is passed to the logging module as part of the format string together with format "
                                  "arguments: a `%` in the text or in a value breaks the rendering and the message is lost"))
